@@ -199,7 +199,7 @@ class Ctx:
             if not os.path.exists(binp):
                 sh(["go", "build", "-o", binp, "."], cwd=tdir, env=GOENV, timeout=600)
             self.check_genlink(lambda out: [binp, REPO, out], "GoArithGen", link, link + ".gen",
-                               pre_files=("GoLinkCommon",) + (("GoLinkC08",) if link == "GoLinkC11" else ()),
+                               pre_files=("GoLinkCommon",) + (("GoLinkC08",) if link in ("GoLinkC11", "GoLinkC07") else ()),
                                display="tools/gotocoq (built with go build this run) %s <out>" % REPO)
             return None
         except Fail as e:
